@@ -256,14 +256,15 @@ func (ex *Exec) havocAll(st *State) {
 		names = append(names, n)
 	}
 	sort.Strings(names)
+	ex.bumpWM(st)
 	for _, n := range names {
 		st.heap[n] = Fresh(n, ex.heapSrt[n])
+		ex.heapFacts(n, st.heap[n], st.wm)
 		if ex.wlog != nil {
 			ex.wlog.logHeap(n, nil)
 		}
 	}
 	ex.havocEpoch++
-	ex.bumpWM(st)
 }
 
 // ---- contracts at call sites ----
@@ -390,10 +391,10 @@ func (ex *Exec) useContract(fr *Frame, st *State, con *Contract, key string, fn 
 	if !con.HasMod {
 		ex.havocAll(st)
 	} else {
+		ex.bumpWM(st)
 		for _, m := range con.Modifies {
 			ex.havocDesignator(envPre, st, m)
 		}
-		ex.bumpWM(st)
 	}
 	res := ex.freshResult(st, shortName(key), rt)
 	envPost := ex.newEnv(con.PkgPath, st)
@@ -439,10 +440,14 @@ func (ex *Exec) havocDesignator(envPre *SpecEnv, st *State, d *SExpr) {
 		}
 		cur := ex.heapGet(st, hr.name, srt)
 		if hr.idx == nil {
-			ex.heapSet(st, hr.name, Fresh(hr.name, srt))
+			nh := Fresh(hr.name, srt)
+			ex.heapFacts(hr.name, nh, st.wm)
+			ex.heapSet(st, hr.name, nh)
 		} else {
 			_, es := srt.splitArr()
-			ex.heapSet(st, hr.name, Store(cur, hr.idx, Fresh(hr.name+"_at", es)))
+			row := Fresh(hr.name+"_at", es)
+			ex.rowFacts(hr.name, row, st.wm)
+			ex.heapSet(st, hr.name, Store(cur, hr.idx, row))
 		}
 	}
 }
